@@ -1,9 +1,248 @@
-/- driver handler of the `amqp` stream (line protocol, see Main.lean) -/
+/- driver handler of the `amqp` stream (line protocol, see Main.lean)
+
+amqp consumer <transport> <env> <address>      -> ok {"ops":[…],"queue":…} | err parse|noExchange | unsupported
+amqp producer <transport> <env> <address>      -> ok {"ops":[…],"exchange":…,"subject":…} | err parse | unsupported
+amqp send     <transport> <target> <message>   -> ok {"frame":…,"delivered":…} | unsupported
+amqp clamp    <expiry>                         -> ok <text|null> | unsupported
+amqp ack      <transport> <unacked> <tag> <multiple> -> ok <unacked'>
+amqp names    <queue name> <queue type> <instance id> -> ok {names and address strings of the engine}
+amqp route    <actions>                        -> ok <n> | bad <index>
+-/
 import AslModel.Drv.Util
+import AslModel.Amqp
+import AslModel.AmqpRoute
 namespace Asl.Drv.Amqp
-open Asl
+open Asl Asl.Drv Asl.Amqp
+
+def s (x : String) : Str := x.toList
+def jstr (x : Str) : Json := .str x
+def o (kvs : List (String × Json)) : Json := .obj (kvs.map (fun kv => (kv.1.toList, kv.2)))
+
+def opJson : Op → Json
+  | .exchangeDeclare e t p d a g =>
+    o [("op", .str (s "exchange_declare")), ("exchange", e), ("type", t), ("passive", p), ("durable", d),
+       ("auto_delete", a), ("arguments", g)]
+  | .queueDeclare q p d x a g =>
+    o [("op", .str (s "queue_declare")), ("queue", q), ("passive", p), ("durable", d), ("exclusive", x),
+       ("auto_delete", a), ("arguments", g)]
+  | .queueBind q e k g =>
+    o [("op", .str (s "queue_bind")), ("queue", q), ("exchange", e), ("key", k), ("arguments", g)]
+  | .consume q x g =>
+    o [("op", .str (s "consume")), ("queue", q), ("exclusive", x), ("arguments", g)]
+
+def rdTransport : String → Option Transport
+  | "asyncio" => some .asyncio
+  | "blocking" => some .blocking
+  | _ => none
+
+def strList : List Json → Option (List Str)
+  | [] => some []
+  | .str x :: rest => (strList rest).map (x :: ·)
+  | _ => none
+
+def rdEnv (t : String) : Option Env :=
+  match rd t with
+  | some (.obj kvs) =>
+    match objGet kvs (s "exchanges"), objGet kvs (s "anon") with
+    | some (.arr xs), some (.str a) => (strList xs).map (fun l => ⟨l, a⟩)
+    | _, _ => none
+  | _ => none
+
+def ascii (x : Str) : Bool := x.all (fun c => c.toNat < 128)
+
+def showErr : AErr → String
+  | .parse => "err\tparse"
+  | .noExchange => "err\tnoExchange"
+  | .shape => "unsupported"
+
+/-- the region where `float` arithmetic is exact, so that `int(float(x))` is the model's truncation:
+at most 15 significant digits and a value below 10^15; no digit-group underscores; ASCII -/
+def exactText (t : Str) : Bool :=
+  ascii t && !t.contains '_' &&
+  match parseFloatText t with
+  | .fin _ m e => m == 0 || (decide (m < 10 ^ 15) && decide (-30 ≤ e) && decide (e ≤ 15) &&
+      decide ((truncNum false m e).toNat < 10 ^ 15))
+  | _ => true
+
+def exactExpiry : Expiry → Bool
+  | .none => true
+  | .int n => decide (n.natAbs < 2 ^ 53)
+  | .text t => exactText t
+
+def rdExpiry : Json → Option Expiry
+  | .obj kvs =>
+    match objGet kvs (s "k"), objGet kvs (s "v") with
+    | some (.str k), v =>
+      if k = s "none" then some .none
+      else if k = s "int" then match v with
+        | some (.num n) => some (.int n)
+        | _ => none
+      else if k = s "text" then match v with
+        | some (.str t) => some (.text t)
+        | _ => none
+      else none
+    | _, _ => none
+  | _ => none
+
+def optStrJson : Option Str → Json
+  | some x => .str x
+  | none => .null
+
+def g (kvs : Dict) (k : String) : Json := (objGet kvs (s k)).getD .null
+
+def rdMsg (j : Json) : Option Msg :=
+  match j with
+  | .obj kvs =>
+    match g kvs "body", g kvs "properties", g kvs "durable", g kvs "mandatory", rdExpiry (g kvs "expiration") with
+    | .str body, .obj props, .bool dur, .bool man, some ex =>
+      let m : Msg := { body := body, properties := props, contentType := g kvs "content_type",
+                       contentEncoding := g kvs "content_encoding", durable := dur, mandatory := man,
+                       priority := g kvs "priority", correlationId := g kvs "correlation_id",
+                       replyTo := g kvs "reply_to", expiration := ex, messageId := g kvs "message_id",
+                       timestamp := g kvs "timestamp", type := g kvs "type", userId := g kvs "user_id",
+                       appId := g kvs "app_id", clusterId := g kvs "cluster_id" }
+      some (m.setSubject (g kvs "subject"))
+    | _, _, _, _, _ => none
+  | _ => none
+
+def expiryJson : Expiry → Json
+  | .none => .null
+  | .int n => .num n
+  | .text t => .str t
+
+def msgJson (m : Msg) : Json :=
+  o [("body", .str m.body), ("properties", .obj m.properties), ("subject", m.subject),
+     ("content_type", m.contentType), ("content_encoding", m.contentEncoding),
+     ("redelivered", .bool m.redelivered), ("durable", .bool m.durable), ("priority", m.priority),
+     ("correlation_id", m.correlationId), ("reply_to", m.replyTo), ("expiration", expiryJson m.expiration),
+     ("message_id", m.messageId), ("timestamp", m.timestamp), ("type", m.type), ("user_id", m.userId),
+     ("app_id", m.appId), ("cluster_id", m.clusterId), ("tag", .num m.tag)]
+
+def frameJson (f : Frame) : Json :=
+  o [("exchange", .str f.exchange), ("routing_key", f.routingKey), ("body", .str f.body),
+     ("mandatory", .bool f.mandatory),
+     ("props", o [("headers", .obj f.props.headers), ("content_type", f.props.contentType),
+       ("content_encoding", f.props.contentEncoding), ("delivery_mode", .num f.props.deliveryMode),
+       ("priority", f.props.priority), ("correlation_id", f.props.correlationId), ("reply_to", f.props.replyTo),
+       ("expiration", optStrJson f.props.expiration), ("message_id", f.props.messageId),
+       ("timestamp", f.props.timestamp), ("type", f.props.type), ("user_id", f.props.userId),
+       ("app_id", f.props.appId), ("cluster_id", f.props.clusterId)])]
+
+def natList : List Json → Option (List Nat)
+  | [] => some []
+  | .num n :: rest => if n < 0 then none else (natList rest).map (n.toNat :: ·)
+  | _ => none
+
+open Asl.AmqpRoute in
+def rdQ : Json → Option QName
+  | .str x => if x = s "shared" then some .shared else none
+  | .num n => if n < 0 then none else some (.inst n.toNat)
+  | _ => none
+
+open Asl.AmqpRoute in
+def rdOuts : List Json → Option (List Out)
+  | [] => some []
+  | .arr [.str k, .num e] :: rest =>
+    if e < 0 then none else
+    let out : Option Out :=
+      if k = s "later" then some (.later e.toNat)
+      else if k = s "childSync" then some (.childSync e.toNat)
+      else if k = s "childAsync" then some (.childAsync e.toNat)
+      else none
+    match out, rdOuts rest with
+    | some x, some xs => some (x :: xs)
+    | _, _ => none
+  | _ => none
+
+open Asl.AmqpRoute in
+def rdAct : Json → Option Act
+  | .arr [.str k, .num a, .num b] =>
+    if k = s "submit" ∧ 0 ≤ a ∧ 0 ≤ b then some (.submit a.toNat b.toNat) else none
+  | .arr [.str k, .num e, .num i, .arr outs] =>
+    if k = s "deliverStart" ∧ 0 ≤ e ∧ 0 ≤ i then (rdOuts outs).map (.deliverStart e.toNat i.toNat ·) else none
+  | .arr [.str k, q, .num e, .num i, .arr outs] =>
+    if k = s "deliverLater" ∧ 0 ≤ e ∧ 0 ≤ i then
+      match rdQ q, rdOuts outs with
+      | some q', some os => some (.deliverLater q' e.toNat i.toNat os)
+      | _, _ => none
+    else none
+  | .arr [.str k, .num i, .arr outs] =>
+    if k = s "spontaneous" ∧ 0 ≤ i then (rdOuts outs).map (.spontaneous i.toNat ·) else none
+  | _ => none
+
+open Asl.AmqpRoute in
+/-- run the actions; the index of the first one that is not enabled -/
+def runIdx : Net → List Json → Nat → Except String Nat
+  | _, [], n => .ok n
+  | st, a :: rest, n =>
+    match rdAct a with
+    | none => .error "unsupported"
+    | some act => match step st act with
+      | some st' => runIdx st' rest (n + 1)
+      | none => .error ("bad\t" ++ toString n)
+
+def rdQType : String → Option QType
+  | "classic" => some .classic
+  | "quorum" => some .quorum
+  | _ => none
 
 def handle : List String → String
+  | ["consumer", t, env, addr] =>
+    match rdTransport t, rdEnv env, rd addr with
+    | some tr, some e, some (.str a) =>
+      if !ascii a then "unsupported" else
+      match consumerOps tr e a with
+      | .ok (ops, q) => "ok\t" ++ js (o [("ops", .arr (ops.map opJson)), ("queue", .str q)])
+      | .error er => showErr er
+    | _, _, _ => "unsupported"
+  | ["producer", t, env, addr] =>
+    match rdTransport t, rdEnv env, rd addr with
+    | some tr, some e, some (.str a) =>
+      if !ascii a then "unsupported" else
+      match producerOps tr e a with
+      | .ok (ops, tg) => "ok\t" ++ js (o [("ops", .arr (ops.map opJson)), ("exchange", .str tg.exchange),
+                                           ("subject", .str tg.subject)])
+      | .error er => showErr er
+    | _, _, _ => "unsupported"
+  | ["send", t, tgt, msg] =>
+    match rdTransport t, rd tgt, (rd msg).bind rdMsg with
+    | some tr, some (.obj tk), some m =>
+      match g tk "exchange", g tk "subject" with
+      | .str ex, .str su =>
+        if !exactExpiry m.expiration then "unsupported" else
+        let f := send tr ⟨ex, su⟩ m
+        "ok\t" ++ js (o [("frame", frameJson f), ("delivered", msgJson (deliver tr f 1 false))])
+      | _, _ => "unsupported"
+    | _, _, _ => "unsupported"
+  | ["clamp", e] =>
+    match (rd e).bind rdExpiry with
+    | some ex => if exactExpiry ex then "ok\t" ++ js (optStrJson (clamp ex)) else "unsupported"
+    | none => "unsupported"
+  | ["ack", t, unacked, tag, multiple] =>
+    match rdTransport t, rd unacked, rd tag, rd multiple with
+    | some tr, some (.arr us), some (.num tg), some (.bool mu) =>
+      match natList us with
+      | some c =>
+        if tg < 0 then "unsupported" else
+        let m : Msg := { body := [], properties := [], tag := tg.toNat }
+        let c' := if mu then acknowledge c m true else engineAck tr c m
+        "ok\t" ++ js (.arr (c'.map (fun (n : Nat) => Json.num (n : Int))))
+      | none => "unsupported"
+    | _, _, _, _ => "unsupported"
+  | ["names", qn, qt, iid] =>
+    match rd qn, rdQType qt, rd iid with
+    | some (.str q), some ty, some (.str i) =>
+      "ok\t" ++ js (o [("shared", .str (sharedName q ty)), ("instance", .str (instanceName q ty i)),
+        ("reply", .str (replyName ty i)), ("shared_addr", .str (sharedAddr q ty)),
+        ("instance_addr", .str (instanceAddr q ty i)), ("reply_addr", .str (replyAddr ty i)),
+        ("topic_addr", .str topicAddr)])
+    | _, _, _ => "unsupported"
+  | ["route", acts] =>
+    match rd acts with
+    | some (.arr as) => match runIdx {} as 0 with
+      | .ok n => "ok\t" ++ toString n
+      | .error e => e
+    | _ => "unsupported"
   | _ => "bad-op"
 
 end Asl.Drv.Amqp
